@@ -1,6 +1,7 @@
 package main
 
 import (
+	_ "embed"
 	"flag"
 	"fmt"
 	"go/types"
@@ -22,6 +23,9 @@ var registry = map[string]propCheck{}
 var extraConfigs = map[string][]LoadOpts{}
 
 const defaultTags = "default_build,privileged"
+
+//go:embed anchors.txt
+var frozenAnchors string
 
 func main() {
 	prop := flag.String("property", "", "property id (C01..C20) or 'all'")
@@ -71,6 +75,23 @@ func main() {
 		anchors := map[string]bool{}
 		for f := range main.collect {
 			anchors[f.FullName()] = true
+		}
+		// Which functions a rule asks for by name is found by running the rules once on the program as
+		// written; a rule that gives up early there (its first look-up no longer matches because a helper
+		// was extracted) never reaches its later look-ups. The names collected on the reference tree are
+		// therefore kept in anchors.txt and stay anchors for as long as they exist.
+		if d := os.Getenv("TVC_DUMP_ANCHORS"); d != "" {
+			var names []string
+			for n := range anchors {
+				names = append(names, n)
+			}
+			sort.Strings(names)
+			_ = os.WriteFile(d, []byte(strings.Join(names, "\n")+"\n"), 0o644)
+		}
+		for _, n := range strings.Split(frozenAnchors, "\n") {
+			if n = strings.TrimSpace(n); n != "" {
+				anchors[n] = true
+			}
 		}
 		main.collect = nil
 		main.wsCache, main.callers = nil, nil
